@@ -156,6 +156,17 @@ func decodeProtobufSignDoc(signDocBytes []byte) (apitypes.TypedData, error) {
 		return apitypes.TypedData{}, fmt.Errorf("invalid number of signer infos provided, expected 1 got %v", len(authInfo.SignerInfos))
 	}
 
+	if authInfo.Fee == nil {
+		return apitypes.TypedData{}, errors.New("auth info contains no fee")
+	}
+
+	// The typed data carries the fee amount and gas limit only (see the Fee type), so a signature over it
+	// would not bind the fee payer, fee granter or tip: throw an error at their presence, like the Amino
+	// path does (they are extra data of the fee object there).
+	if authInfo.Fee.Payer != "" || authInfo.Fee.Granter != "" || authInfo.GetTip() != nil { //nolint:staticcheck
+		return apitypes.TypedData{}, errors.New("auth info contains unsupported fields: fee Payer, fee Granter, or Tip")
+	}
+
 	// Validate payload messages
 	msgs := make([]sdk.Msg, len(body.Messages))
 	for i, protoMsg := range body.Messages {
